@@ -248,6 +248,10 @@ def worker(job):
             ins = list(inputs)
             ins[pos] = rnd.choice([lim, lim + 2, -1, -lim, -lim - 1])
             out = G.run_api(prog, ins, N, modulus=p, chunks=chunks, ignore=True)
+            if out.exc is not None:
+                R.case(cell="%s|%s|out-of-range-unchecked" % (shape_cls, kcell), key=(src, tuple(ins), "ignore"))
+                R.violation("out-of-range-index-raises-with-checks-off", "index %d on an axis of length %d raised %s although error checking is off (same constraints for every index value)" % (
+                    ins[pos], lim, repr(out.exc)[:80]), src=src, inputs=ins, bl=bl, p=p)
             if out.exc is None:
                 R.count("trace_pairs_compared")
                 R.count("out_of_range_unchecked_traces_compared")
